@@ -46,6 +46,7 @@ type Config struct {
 	PinnedBytes map[string]string
 	PinChoice []int64
 	InitPkgs  []string
+	NoInit    []string
 	HavocMax  int // max length of havoc'd byte slices
 	Solver    string
 	Expect    map[string]bool // assertion ids expected to fail (known findings) - informational
@@ -81,6 +82,7 @@ type Report struct {
 	PathsAssumeCut int
 	Branches       int
 	Forks          int
+	Merges         int
 	Steps          int64
 	Failures       []*Failure
 	Obligations    map[string]*Obligation
@@ -103,6 +105,7 @@ type Report struct {
 	Terms          int
 	Observations   []string
 	Witnesses      []PathWitness
+	InitNotes      []string
 	Samples        []string
 }
 
@@ -182,7 +185,9 @@ type Interp struct {
 	pathCover map[string]bool
 	strConsts map[string]*cellsArr
 	lenient   int
+	noMerge   bool
 	choiceLog map[string]int
+	initDone  map[*ssa.Package]bool
 	trace     []traceEv
 }
 
@@ -311,6 +316,7 @@ func (in *Interp) resetPath(prefix []int64) {
 	in.opaqueSeq = 0
 	in.pathCover = map[string]bool{}
 	in.choiceLog = map[string]int{}
+	in.initDone = map[*ssa.Package]bool{}
 	in.trace = nil
 	in.C.ResetFresh()
 }
@@ -347,8 +353,13 @@ func (in *Interp) runPath(prefix []int64) {
 			panic(r)
 		}
 	}()
-	for _, p := range in.Cfg.InitPkgs {
-		in.runInit(p)
+	for _, pp := range in.Cfg.InitPkgs {
+		for _, p := range in.Prog.AllPackages() {
+			if p.Pkg.Path() == pp && !in.initDone[p] {
+				in.initDone[p] = true
+				in.runPkgInit(p)
+			}
+		}
 	}
 	in.call(in.Cfg.Harness, nil, nil, "harness")
 	// run remaining "after" tasks
